@@ -8,7 +8,7 @@
        the code as found, preservation for the repaired code on an exhaustive bounded family. *)
 From PV Require Import Lib.Py Spec.IRSyntax Spec.CfgSpec Spec.IRWf.
 From PV Require Import Model.IRWfCheck Model.Verify Model.IRStore.
-From PV Require Import Proofs.C03_wf Proofs.C03_verify Proofs.C03_store.
+From PV Require Import Proofs.C03_wf Proofs.C03_verify Proofs.C03_store Proofs.C03_store_inv.
 From Coq Require Import String.
 Open Scope nat_scope.
 Open Scope string_scope.
@@ -24,30 +24,58 @@ Proof. exact wf_modul_b_sound. Qed.
 Print Assumptions c03_wf_module_checker_sound.
 
 (* ---- (2) the verifier *)
-Theorem c03_verifier_sound_partial : forall m f st,
-  verify_function m f st = Ok tt -> uses_cover f st ->
-  wf_entry f /\ wf_shape f /\ wf_reachable f /\ wf_dom f /\ wf_phi_preds_weak f.
-Proof. exact verifier_sound_partial. Qed.
-Print Assumptions c03_verifier_sound_partial.
+Theorem c03_verifier_sound : forall vx m f st,
+  verify_function vx m f st = Ok tt -> uses_cover f st -> wf_function_except_gaps m f.
+Proof. exact verifier_sound. Qed.
+Print Assumptions c03_verifier_sound.
+
+(* wf_function_except_gaps is the specification with exactly the gap clauses weakened *)
+Theorem c03_except_gaps_relaxes_wf : forall m f, wf_function m f -> wf_function_except_gaps m f.
+Proof. exact wf_function_relax. Qed.
+Print Assumptions c03_except_gaps_relaxes_wf.
 
 (* accepted although a phi has an input from a block that is not a predecessor *)
 Theorem c03_verifier_extra_phi_input_refuted :
-  exists m f st, verify_function m f st = Ok tt /\ uses_cover f st /\ ~ wf_phi_preds f.
+  exists m f st, verify_function v_as_found m f st = Ok tt /\ uses_cover f st /\ ~ wf_phi_preds f.
 Proof. exists (mod_of w1), w1, w1_st. exact w1_accepted_not_wf. Qed.
 Print Assumptions c03_verifier_extra_phi_input_refuted.
 
 (* accepted although a value is used before its definition: dominance is checked on the stored
    uses, which nothing compares with the operands *)
 Theorem c03_verifier_trusts_stored_uses_refuted :
-  exists m f st, verify_function m f st = Ok tt /\ ~ wf_dom f.
+  exists m f st, verify_function v_as_found m f st = Ok tt /\ ~ wf_dom f.
 Proof. exists (mod_of w2), w2, w2_st. exact w2_accepted_not_wf. Qed.
 Print Assumptions c03_verifier_trusts_stored_uses_refuted.
 
+(* accepted although a value carried by two phi inputs does not dominate the second input block *)
+Theorem c03_verifier_phi_repeated_value_refuted :
+  exists m f st, verify_function v_as_found m f st = Ok tt /\ uses_cover f st /\ ~ wf_dom_phi f.
+Proof. exists (mod_of w4), w4, w4_st. exact w4_accepted_not_wf. Qed.
+Print Assumptions c03_verifier_phi_repeated_value_refuted.
+
 (* accepted although the operand type of a unary operation differs from its result type *)
 Theorem c03_verifier_unop_type_refuted :
-  exists m f st, verify_function m f st = Ok tt /\ uses_cover f st /\ ~ wf_types m f.
+  exists m f st, verify_function v_as_found m f st = Ok tt /\ uses_cover f st /\ ~ wf_types m f.
 Proof. exists (mod_of w3), w3, w3_st. exact w3_accepted_not_wf. Qed.
 Print Assumptions c03_verifier_unop_type_refuted.
+
+(* ---- (2b) the verifier with the four repairs fixes/C03-verifier-*.diff (configuration v_all_fixed):
+   no hypothesis about the bookkeeping is needed any more, and the gap clauses become guarantees *)
+Theorem c03_verifier_fixed_sound : forall m f st,
+  verify_function v_all_fixed m f st = Ok tt ->
+  wf_function_except_gaps m f /\ uses_cover f st /\ wf_phi_preds_exact f /\ wf_dom_phi f /\
+  wf_unop_typed f.
+Proof. exact verifier_fixed_sound. Qed.
+Print Assumptions c03_verifier_fixed_sound.
+
+Theorem c03_verifier_fixed_rejects_gap_witnesses :
+  verify_function v_all_fixed (mod_of w1) w1 w1_st <> Ok tt /\
+  verify_function v_all_fixed (mod_of w2) w2 w2_st <> Ok tt /\
+  verify_function v_all_fixed (mod_of w3) w3 w3_st <> Ok tt /\
+  verify_function v_all_fixed (mod_of w4) w4 w4_st <> Ok tt /\
+  verify_function v_all_fixed (mod_of w0) w0 w0_st = Ok tt.
+Proof. exact witnesses_rejected. Qed.
+Print Assumptions c03_verifier_fixed_rejects_gap_witnesses.
 
 (* ---- (3) bookkeeping mutators, code as found *)
 Theorem c03_replace_use_refuted :
@@ -107,6 +135,34 @@ Theorem c03_replace_by_total_bounded :
 Proof. exact replace_by_total_bounded. Qed.
 Print Assumptions c03_replace_by_total_bounded.
 
+(* ---- (3b) repaired code, UNBOUNDED: the def-use invariant INV (stored uses = operands, stored used_by =
+   derived users, for every instruction object) is preserved by replace_use of every kind incl.
+   repeated operands, by Value.replace_by, Phi.set_incoming and Phi.del_incoming, for all states *)
+Theorem c03_replace_use_preserves_def_use : forall s i old new s',
+  INV s -> replace_use all_fixed s i old new = Ok s' -> INV s'.
+Proof. exact replace_use_INV. Qed.
+Print Assumptions c03_replace_use_preserves_def_use.
+
+Theorem c03_replace_by_preserves_def_use : forall s v new s',
+  INV s -> replace_by all_fixed s v new = Ok s' -> INV s'.
+Proof. exact replace_by_INV. Qed.
+Print Assumptions c03_replace_by_preserves_def_use.
+
+Theorem c03_set_incoming_preserves_def_use : forall s i b v s' x,
+  INV s -> get_i s i = Ok x -> i_kind x = KPhi ->
+  set_incoming all_fixed s i b v = Ok s' -> INV s'.
+Proof. exact set_incoming_INV. Qed.
+Print Assumptions c03_set_incoming_preserves_def_use.
+
+Theorem c03_del_incoming_preserves_def_use : forall s i b s' x,
+  INV s -> get_i s i = Ok x -> i_kind x = KPhi ->
+  del_incoming all_fixed s i b = Ok s' -> INV s'.
+Proof. exact del_incoming_INV. Qed.
+Print Assumptions c03_del_incoming_preserves_def_use.
+
+Example c03_inv_nonvacuous : INV empty_store.
+Proof. exact INV_empty. Qed.
+
 Example c03_nonvacuous :
-  verify_function (mod_of w0) w0 w0_st = Ok tt /\ wf_function_b (mod_of w0) w0 = true.
+  verify_function v_as_found (mod_of w0) w0 w0_st = Ok tt /\ wf_function_b (mod_of w0) w0 = true.
 Proof. exact w0_ok. Qed.
